@@ -552,6 +552,10 @@ Definition refresh (tr : tree) : result tree :=
 
 End Engine.
 
+(* keep tactics from unrolling the fuelled sizing search *)
+Global Opaque sizing_fuel.
+Arguments size_loop : simpl never.
+
 Arguments NSec {N A} s.
 Arguments mkLazy {N} lz_id lz_class lz_fi lz_mult.
 Arguments mkAdj {N} a_amt a_fee a_stale.
